@@ -88,6 +88,28 @@ theorem tie_expr_pes_header_data_len : ∀ x : Fin 256,
     pes_header_data_len (envL [0xff, 0xff, x.val, 0xff]) = x.val := by decide +kernel
 theorem tie_model_hdl (buf : Bytes) : Pes.hdl buf = byteAt buf 2 := rfl
 
+/-! ### the flag-dependent end-offset chain (control flow translated from the source: `match` with
+its `panic!` arm, `if`, calls) -/
+
+/-- a model result as an option (`none` = the Rust code panics) -/
+def rOpt {α : Type} : R α → Option α
+  | .ok a => some a
+  | .panic _ => none
+
+/-- `pts_dts_end` … `pes_crc_end` as functions of the flags byte (byte 1): same value, and the same
+(unreachable: `pts_dts_flags` is two bits) panic arm -/
+theorem tie_expr_pes_ends : ∀ x : Fin 256,
+    pes_pts_dts_end (envL [0, x.val]) = rOpt (Pes.ptsDtsEnd x.val)
+    ∧ pes_escr_end (envL [0, x.val]) = rOpt (Pes.escrEnd x.val)
+    ∧ pes_es_rate_end (envL [0, x.val]) = rOpt (Pes.esRateEnd x.val)
+    ∧ pes_trick_end (envL [0, x.val]) = rOpt (Pes.trickEnd x.val)
+    ∧ pes_copy_info_end (envL [0, x.val]) = rOpt (Pes.aciEnd x.val)
+    ∧ pes_crc_end (envL [0, x.val]) = rOpt (Pes.crcEnd x.val) := by decide +kernel
+
+/-- none of them panics, whatever the flags byte -/
+theorem code_pes_ends_total : ∀ x : Fin 256, (pes_crc_end (envL [0, x.val])).isSome = true := by
+  decide +kernel
+
 /-! ### ESCR, ES_rate -/
 
 def mEscrBase (e : Env) : Nat := Pes.escrBase (e 0) (e 1) (e 2) (e 3) (e 4)
